@@ -18,7 +18,8 @@ from . import matrix_common as mc
 from . import replays
 
 TERMS = ["1", "a", "b", "a:b", "a:A", "b:a:B", "2.5:a", "A", "A:B", "a:b:A", "3:a:b", "b:B"]
-WRT = [("a",), ("b",), ("a", "b"), ("b", "a"), ("a", "a")]
+WRT = [("a",), ("b",), ("a", "b"), ("b", "a"), ("a", "a"), ("b", "b")]
+WRT_THOROUGH = [("a", "b", "a"), ("b", "a", "b"), ("a", "a", "a")]
 
 
 def _term_cols(term_obj, df, ctx):
@@ -80,7 +81,7 @@ def _case(check: Check, case, record=False):
         p = {"kind": "c20_values", "terms": list(fam), "wrt": list(wrt),
              "a": [model_value(model, z3.Real(f"a{i}")) for i in range(n)], "b": [model_value(model, z3.Real(f"b{i}")) for i in range(n)],
              "h": [model_value(model, h) for h in H]}
-        for cand in (p, dict(p, a=[0.5, 1.25, 2.0, 3.5, 4.75, 6.0, 7.5], b=[1.0, 7.0, 2.5, 5.5, 0.25, 3.0, 6.5], h=[0.5, 2.0][: len(wrt)])):
+        for cand in (p, dict(p, a=[0.5, 1.25, 2.0, 3.5, 4.75, 6.0, 7.5], b=[1.0, 7.0, 2.5, 5.5, 0.25, 3.0, 6.5], h=[0.5, 2.0, 1.25][: len(wrt)])):
             bad = replays.run(cand)
             if bad:
                 return (f"derivative::wrt={'.'.join(wrt)}", bad, cand)
@@ -102,7 +103,7 @@ def run(check: Check) -> None:
         "of terms, zero / factor removed / one, successive variables) is explored by CrossHair in harness/ch_c20.py."
     )
     check.info["rule"] = "case = (term family of <=3 from a 12-term menu, wrt tuple of <=2 variables)"
-    check.bounds.update({"terms_menu": TERMS, "wrt": [list(w) for w in WRT], "rows": mc.NROWS})
+    check.bounds.update({"terms_menu": TERMS, "wrt": [list(w) for w in WRT] + ([list(w) for w in WRT_THOROUGH] if check.tier == "thorough" else []), "rows": mc.NROWS})
     check.out_of_scope += ["use_sympy=True (sympy is not installed in /venv)", "non-multilinear factors (log(a), a**2): without sympy they differentiate to 0 by design"]
     fams = [[t] for t in TERMS]
     pairs = [list(p) for p in itertools.permutations(TERMS, 2)]
@@ -110,7 +111,7 @@ def run(check: Check) -> None:
     fams += pairs if thorough else pairs[:25]
     tri = [rng.sample(TERMS, 3) for _ in range(200 if thorough else 15)]
     fams += tri
-    cases = [(tuple(f), w) for f in fams for w in WRT]
+    cases = [(tuple(f), w) for f in fams for w in (WRT + (WRT_THOROUGH if thorough else []))]
     run_cases(check, cases, _case)
     from . import ch_c20_run
 
